@@ -1,0 +1,52 @@
+// +build verif
+
+// Additions for the external verification harness (/verif, property C18,
+// consecutive sync cycles on one queue / one Downloader): the calls
+// synchronise / spawnSync make between two cycles.  Compiled only with
+// -tags verif; every method forwards to the unexported original or reads a
+// field; nothing here changes the behaviour of existing code.
+
+package downloader
+
+import "time"
+
+// Reset is synchronise's d.queue.Reset().
+func (v *VerifQueue) Reset() { v.q.Reset() }
+
+// Close is spawnSync's d.queue.Close().
+func (v *VerifQueue) Close() { v.q.Close() }
+
+// Closed reads the queue's closed flag.
+func (v *VerifQueue) Closed() bool {
+	v.q.lock.Lock()
+	defer v.q.lock.Unlock()
+	return v.q.closed
+}
+
+// Reset is synchronise's d.peers.Reset().
+func (s *VerifPeerSet) Reset() { s.ps.Reset() }
+
+// EndSync ends a cycle the way spawnSync and the next synchronise do: close the
+// queue, cancel, wait until the fetchBodies goroutine started by
+// StartFetchBodies has returned (its result is handed back; returned=false if
+// it has not done so within the given time), then empty the body wake and
+// delivery channels as synchronise does before it resets queue and peers.
+// BeginSync / StartFetchBodies can be called again afterwards.
+func (v *VerifDL) EndSync(wait time.Duration) (err error, returned bool) {
+	v.d.queue.Close()
+	v.d.cancel()
+	select {
+	case err = <-v.errc:
+	case <-time.After(wait):
+		return nil, false
+	}
+	select {
+	case <-v.d.bodyWakeCh:
+	default:
+	}
+	select {
+	case <-v.d.bodyCh:
+	default:
+	}
+	return err, true
+}
